@@ -24,6 +24,7 @@ CONTRACTS_DIR = os.path.join(os.path.dirname(os.path.dirname(os.path.abspath(__f
 def load_harness(path):
     name = "contracts." + os.path.splitext(os.path.basename(path))[0]
     mi = extract.ModuleInfo(name, path)
+    mi.is_harness = True
     # names imported from spec are builtins of the engine
     mi.imports = {k: v for k, v in mi.imports.items() if v[0] not in ("spec", "contracts.spec")}
     return mi
@@ -139,6 +140,12 @@ def discharge(I, ob, z3_timeout_s, cvc5_timeout_s, both=False):
     else:
         neg = z3.Not(goal)
         s.add(neg)
+    from . import smt
+
+    if smt.fast_unsat(list(I.axioms) + list(ob.pc) + ([neg] if neg is not None else []), int(z3_timeout_s * 1000)):
+        ob.status, ob.backend = "discharged", "z3-nlsat"
+        ob.time = time.time() - t0
+        return
     r = s.check()
     ob.backend = "z3"
     if r == z3.unsat:
@@ -190,6 +197,17 @@ def run_lemma(path, lemma_name, tier="quick"):
     """-> result dict (picklable).  Executed in a worker process."""
     t0 = time.time()
     res = {"lemma": lemma_name, "file": os.path.basename(path), "status": "ok", "obligations": [], "error": None}
+    import signal
+
+    def _alarm(signum, frame):
+        raise TimeoutError("lemma wall-clock budget exceeded")
+
+    budget = int(os.environ.get("PYVC_LEMMA_BUDGET", "240" if tier == "quick" else "1800"))
+    try:
+        signal.signal(signal.SIGALRM, _alarm)
+        signal.alarm(budget)
+    except Exception:
+        pass
     try:
         extract.clear_cache()
         mi = load_harness(path)
@@ -241,6 +259,10 @@ def run_lemma(path, lemma_name, tier="quick"):
         res["solver_s"] = round(I.stats["solver_s"] + sum(o.time for o in I.obligations), 3)
         res["feas_checks"] = I.stats["feas_checks"]
         res["hypotheses"] = opts
+    except TimeoutError as e:
+        res["status"] = "unsupported"
+        res["error"] = "timeout: %s" % e
+        res["trace"] = traceback.format_exc()[-1500:]
     except Unsupported as e:
         res["status"] = "unsupported"
         res["error"] = str(e)
@@ -249,6 +271,10 @@ def run_lemma(path, lemma_name, tier="quick"):
         res["status"] = "error"
         res["error"] = "%s: %s" % (type(e).__name__, e)
         res["trace"] = traceback.format_exc()[-3000:]
+    try:
+        signal.alarm(0)
+    except Exception:
+        pass
     res["wall_s"] = round(time.time() - t0, 3)
     return res
 
